@@ -675,6 +675,17 @@ def _norm1(e, ctx):
                 return ('const', a[1] << b[1])
             return _norm1(('bin', '*', a, ('bin', '**', ('const', 2), b)), ctx) \
                 if _is_intlike(a) else None
+        if op == '+':
+            # tuple concatenation: (k,) + tuple(p) is (k, *p); (a,) + (b, c) is (a, b, c)
+            def parts(x):
+                if x[0] == 'tuple':
+                    return list(x[1])
+                if x[0] == 'call' and x[1] == ('name', 'tuple') and len(x[2]) == 1 and not x[3]:
+                    return [('star', x[2][0])]
+                return None
+            pa, pb = parts(a), parts(b)
+            if pa is not None and pb is not None and (a[0] == 'tuple' or b[0] == 'tuple'):
+                return ('tuple', tuple(pa + pb))
         if op in ('+', '-'):
             if _has_str(a) or _has_str(b):
                 return None
